@@ -1371,6 +1371,8 @@ fn c14_bin(r: &mut CheckResult, bin: &Path, doc: &Documented, tier: &str, rng: &
     } else {
         vec![None, Some("TomlDir".into()), Some("./contracts".into()), Some("@ABS/TomlDir".into())]
     };
+    // a toml path that does not exist: the run must fail (never fall back to ./contracts)
+    let tpaths: Vec<Option<String>> = tpaths.into_iter().chain([Some("MissingDir".to_string())]).collect();
     let mut cases: Vec<BinCase> = vec![];
     for flag in &flags {
         for contracts in [true, false] {
@@ -1766,7 +1768,7 @@ fn eval_frame_case(bin: &Path, case: &FrameCase, cache: &mut RefCache) -> FrameO
     // R: the report this tree must produce, obtained from an unrelated, empty working directory
     let reference: Option<Vec<u8>> = if is_ref { None } else { reference_for(bin, &case.tree, &case.cfg, cache) };
     let sc = Scratch::new();
-    let cfg_all = case.cfg != "toml";
+    let cfg_all = case.cfg == "all";
     let tree = make_tree_id(&case.tree, cfg_all);
     let style = if case.style == "default" && case.cwd != "parent" { "rel" } else { case.style.as_str() };
     let (cwd_rel, tree_rel, rel_arg): (&str, &str, &str) = match case.cwd.as_str() {
@@ -1792,10 +1794,15 @@ fn eval_frame_case(bin: &Path, case: &FrameCase, cache: &mut RefCache) -> FrameO
     }
     if !cfg_all {
         let tp = path_arg.clone().unwrap_or_else(|| "./contracts".to_string());
-        let text = format!(
-            "path = {}\noptimizations = [\"address_balance\"]\nvulnerabilities = [\"unsafe_erc20_operation\"]\nqa = [\"private_vars_leading_underscore\"]\n",
-            toml_str(&tp)
-        );
+        let text = if case.cfg == "toml-empty" {
+            // a configuration that selects NO pattern: the (empty) report must still be written and replace an old one
+            format!("path = {}\noptimizations = []\nvulnerabilities = []\nqa = []\n", toml_str(&tp))
+        } else {
+            format!(
+                "path = {}\noptimizations = [\"address_balance\"]\nvulnerabilities = [\"unsafe_erc20_operation\"]\nqa = [\"private_vars_leading_underscore\"]\n",
+                toml_str(&tp)
+            )
+        };
         write_file(&sc.p("conf.toml"), text.as_bytes(), 0o444);
         args.push("--toml".into());
         args.push("../conf.toml".into());
@@ -1977,7 +1984,10 @@ pub fn run_c18(tier: &str, seed: u64) -> CheckResult {
     let mut cases: Vec<FrameCase> = vec![];
     let mut rot = 0usize;
     for (ti, t) in trees.iter().enumerate() {
-        for cfg in ["all", "toml"] {
+        for cfg in ["all", "toml", "toml-empty"] {
+            if cfg == "toml-empty" && ti > 1 {
+                continue;
+            }
             for cwd in cwds {
                 // quick: every previous-report state for the first three trees; for the others the
                 // same-length states always, the remaining ones in rotation
